@@ -283,28 +283,6 @@ theorem segmentize_zero_wnd (m fuel : Nat) (t : Tcb) (q : Nat) (hw : t.snd.wnd =
     rw [segmentize_succ, hw]
     simp
 
-theorem segmentize_state (m fuel : Nat) (s u : Tcb) (q : Nat) (h : Tcb.segmentize m fuel s q = .ok u) :
-    u.state = s.state ∧ u.incoming = s.incoming := by
-  induction fuel generalizing s q with
-  | zero => cases h; exact ⟨rfl, rfl⟩
-  | succ n ih =>
-    rw [segmentize_succ] at h
-    split at h
-    · cases h; exact ⟨rfl, rfl⟩
-    · split at h
-      · cases h
-      · have := ih _ _ h
-        exact ⟨this.1, this.2⟩
-
-theorem segmentizeIfOpen_state (s u : Tcb) (h : Tcb.segmentizeIfOpen s = .ok u) :
-    u.state = s.state ∧ u.incoming = s.incoming := by
-  unfold Tcb.segmentizeIfOpen at h
-  repeat' (split at h)
-  all_goals first
-    | (cases h; done)
-    | (cases h; exact ⟨rfl, rfl⟩)
-    | exact segmentize_state _ _ _ _ _ h
-
 theorem segmentizeIfOpen_synSent (s : Tcb) (hs : s.state = .SynSent) (hw : s.snd.wnd = 0) (hm : ¬ s.mtu.toNat < SPACE_FOR_HEADERS) :
     Tcb.segmentizeIfOpen s = .ok s := by
   unfold Tcb.segmentizeIfOpen
